@@ -93,15 +93,19 @@ fn gen_hc(rng: &mut Rng) -> HC {
     let args = gen_args(rng, "a", &mut shorts, n_opts, n_pos);
     let nsubs = match rng.below(4) { 0 | 1 => 0, 2 => 1, _ => 3 };
     let subs = (0..nsubs).map(|i| {
-        let mut sshorts: Vec<char> = SHORTS.chars().collect();
-        HS {
+        // one pool for the whole tree: with flatten_help a subcommand's flags are printed in the parent's help,
+        // where the letter of a hidden parent flag must stay a unique token
+        let mut sshorts: Vec<char> = std::mem::take(&mut shorts);
+        let hs = HS {
             name: format!("sc{i}n{}", "n".repeat(rng.below(3) * rng.below(6))),
-            short_flag: if rng.chance(1, 4) && !shorts.is_empty() { Some(shorts.remove(rng.below(shorts.len()))) } else { None },
+            short_flag: if rng.chance(1, 4) && !sshorts.is_empty() { Some(sshorts.remove(rng.below(sshorts.len()))) } else { None },
             long_flag: if rng.chance(1, 4) { Some(format!("lsf{i}x")) } else { None },
             hide: rng.chance(1, 5), about: if rng.chance(3, 4) { Some(text(rng, &format!("AB{i}"))) } else { None },
             aliases: if rng.chance(1, 4) { vec![format!("al{i}s")] } else { vec![] },
             args: { let (no, np) = (rng.below(3), rng.below(2)); gen_args(rng, &format!("s{i}"), &mut sshorts, no, np) },
-        }
+        };
+        shorts = sshorts;
+        hs
     }).collect();
     HC {
         args, subs, alpha: rng.chance(1, 5), nlh: rng.chance(1, 10), no_help_flag: rng.chance(1, 8),
